@@ -32,6 +32,8 @@ Full statement / proved / missing
   of the accumulator" + C01 + `C04_common_fam` (commonType is an upper bound on the family `Ty.Fam` of inferred types and stays inside it);
   `C04_ptype_of_family` — the same for values with type values, conditional on a family on which commonType is an upper bound;
   `C04_generalize_partial` — the sixth law for every type without Variant (and with finite Float bounds: the excluded case is the finding);
+  `C04_dtype` — THE SECOND LAW, unconditional, for every value without type values and without a hash keyed by strings only with the
+  empty string among them;
 * missing: the first law for values that hold TYPE values (commonType of two `Type[..]` recurses into arbitrary types: Tuple / Variant
   merges need transitivity stage 2), the second law for hashes with non-string / empty-string keys;
   `C04_common` for the structural merges (Enum/String/Array/Tuple/Variant …); `C04_generalize`.  All six laws are evaluated on the
@@ -62,7 +64,7 @@ theorem C04_dtype_scalar (cfg : Cfg) (sfh : Bool) (v : Val) (h : Val.Leafy cfg v
 /-- second law, unbounded, for every value built from arrays (any nesting, heterogeneous) and hashes keyed by pairwise different
     non-empty strings over such leaves: the detailed type (Tuple of detailed types, Struct of detailed member types with the
     Optional-key rule of `NewStructElement`) contains the value.  No `commonType` is involved for these values. -/
-theorem C04_dtype_struct (cfg : Cfg) (sfh : Bool) (v : Val) (h : Val.Structy cfg v) :
+theorem C04_dtype_struct (cfg : Cfg) (sfh : Bool) (v : Val) (h : Val.Structy cfg sfh v) :
     inst cfg sfh (dtype cfg sfh v) v = true := dtype_structy cfg sfh v.w v (Nat.le_refl _) h
 
 /-- FIRST LAW, unconditional and unbounded, for both settings of the exempt rule (`sfh = true` is the code): every value that holds no
@@ -73,6 +75,14 @@ theorem C04_dtype_struct (cfg : Cfg) (sfh : Bool) (v : Val) (h : Val.Structy cfg
 theorem C04_ptype (cfg : Cfg) (sfh : Bool) (hl : ∀ s, (cfg.lower s).length = s.length) (v : Val)
     (ok : v.OK) (tv : Val.TyOK cfg v) (nt : Val.AllTyp (fun _ => False) v) : inst cfg sfh (ptype cfg sfh v) v = true :=
   ptype_fam cfg sfh hl v ok tv nt
+
+/-- SECOND LAW, unconditional, for the code's setting of the rule: every value that holds no type value and no hash keyed by strings
+    only with the empty string among them is an instance of its detailed type (Tuple of detailed types; Struct for hashes keyed by
+    non-empty strings; the reduced type, by the first law, for hashes with a non-string key and for Sensitive) -/
+theorem C04_dtype (cfg : Cfg) (sfh : Bool) (hl : ∀ s, (cfg.lower s).length = s.length) (v : Val)
+    (ok : v.OK) (tv : Val.TyOK cfg v) (nt : Val.AllTyp (fun _ => False) v) (ne : Val.NoEmptyKey v) :
+    inst cfg sfh (dtype cfg sfh v) v = true :=
+  dtype_structy cfg sfh v.w v (Nat.le_refl _) (dtype_fam cfg sfh hl v.w v (Nat.le_refl _) ok tv nt ne)
 
 /-- `commonType` on the family of inferred types: the result stays in the family and accepts both arguments -/
 theorem C04_common_fam (cfg : Cfg) (sfh : Bool) (a b : Ty) (ha : a.Fam) (hb : b.Fam) :
@@ -160,7 +170,7 @@ example : Val.AllTyp (fun _ => False) (.array [.int 1, .hash [(.int 2, .str "a")
 example : (Ty.struct [("a", true, .array (.strVal "x") ⟨1, 2⟩)]).GenOK := by simp [Ty.GenOK, Rng.isSize, I64.max]
 example : Val.Leafy idCfg4 (.sensitive (.typ (.array (.int ⟨0, 5⟩) ⟨1, 2⟩))) := by
   simp [Val.Leafy, Ty.WF, Ty.TF]
-example : Val.Structy idCfg4 (.array [.int 1, .hash [(.str "a", .array [.str "x", .undef]), (.str "b", .undef)]]) := by
+example : Val.Structy idCfg4 true (.array [.int 1, .hash [(.str "a", .array [.str "x", .undef]), (.str "b", .undef)]]) := by
   refine Val.Structy.array _ ?_
   intro x hx; simp at hx
   rcases hx with rfl | rfl
